@@ -4,6 +4,7 @@
 
 mod codec;
 mod crash;
+mod fault;
 mod hyb;
 mod lay;
 mod infl;
@@ -79,6 +80,7 @@ fn main() {
         "hyb" | "blk" => hyb::main(&args),
         "lay" => lay::main(&args),
         "crash" => crash::main(&args),
+        "fault" => fault::main(&args),
         _ => {
             eprintln!("unknown domain {domain:?}");
             2
